@@ -62,6 +62,7 @@ fn main() {
         "C09" => run_property(&props::c09::C09, &args),
         "C10" => run_property(&props::c10::C10, &args),
         "C11" => run_property(&props::c11::C11, &args),
+        "C12" => run_property(&props::c12::C12, &args),
         "C20" => run_property(&props::c20::C20, &args),
         x => {
             eprintln!("unknown property {}", x);
